@@ -342,8 +342,11 @@ class SelectionProof:
                         st.d.assign_var_plus(x, aa[0], aa[1] + (cc[1] if op == "Add" else -cc[1]))
                         return
                     if aa and cc and op == "Sub":
+                        strictly = st.lt(cc, aa)
                         st.d.havoc_unsigned(x)
                         st.lin[l] = ("sub", aa, cc)
+                        if strictly:
+                            st.d.add("Z", x, -1)          # a − c ≥ 1 when c < a is known
                         return
             if rv["k"] == "binop" and rv["op"] in ("Add", "Sub"):
                 # release profile: unchecked arithmetic – exact only where wrapping is excluded by the current state
@@ -499,6 +502,19 @@ class SelectionProof:
                 if st.eq(c_, lo):
                     pos = a_                      # lo + (a − lo) = a
                     st.d.add(lo[0], a_[0], a_[1] - lo[1])
+            if pos is None and idx_t is not None and idx_t[0] not in ("Z", "N"):
+                # `i - k - 1`: a constant offset on top of a recorded difference  t = a − c  is  a − (c − offset)
+                for l2, rec in list(st.lin.items()):
+                    if rec[0] != "sub" or pos is not None:
+                        continue
+                    for off in range(-4, 5):
+                        if st.eq((self.name(l2), off), idx_t):        # the passed index is t + off with t = a − c recorded
+                            _, a_, c_ = rec
+                            c2 = (c_[0], c_[1] - off)
+                            if st.eq(c2, lo):
+                                pos = a_
+                                st.d.add(lo[0], a_[0], a_[1] - lo[1])
+                            break
             if pos is None and idx_t is not None and st.eq(lo, ("Z", 0)):
                 pos = idx_t
             if pos is None:
